@@ -61,13 +61,14 @@ pub type UnionFingerprints = BTreeMap<BTreeSet<String>, String>;
 /// from the set of referenced schema names to the parent schema name. This enables
 /// deduplication of union types that share the same set of variants.
 ///
-/// Only unions with 2 or more named references are included.
+/// Only unions made up entirely of 2 or more named references are included;
+/// a union with further inline variants accepts more than its references say.
 pub fn build_union_fingerprints(schemas: &BTreeMap<String, ObjectSchema>) -> UnionFingerprints {
   let mut fingerprints = UnionFingerprints::new();
   for (name, schema) in schemas {
     for variants in [&schema.one_of, &schema.any_of] {
       let refs = extract_union_fingerprint(variants);
-      if refs.len() >= 2 {
+      if refs.len() >= 2 && refs.len() == variants.len() {
         fingerprints.insert(refs, name.clone());
       }
     }
